@@ -4,6 +4,7 @@ go 1.15
 
 require (
 	github.com/oneconcern/datamon v0.0.0
+	github.com/segmentio/ksuid v1.0.4
 	github.com/spf13/afero v1.9.3
 	go.uber.org/zap v1.24.0
 	gopkg.in/yaml.v2 v2.4.0
